@@ -134,7 +134,8 @@ def cases(tier):
                 cs.append(H1a(N, K, tau))
     cs += [H1a(4, 1, True), H1a(4, 2, False), H1a(4, None, False)]
     for unique in (False, True):
-        cs += [H1b(3, 1, True, unique, "sz"), H1b(3, None, False, unique, "sz"), H1b(2, 1, False, unique, "id")]
+        cs += [H1b(3, 1, True, unique, "sz"), H1b(3, None, False, unique, "sz"), H1b(2, 1, False, unique, "id"),
+               H1b(2, 1, False, unique, "syz")]
     cs += [H2(3, 2, None), H2(3, 2, 1, True), H2(4, 2, 1), H2(4, 3, 2)]
     if tier == "thorough":
         # (N=5 does not finish within the per-case limits: z3 returns unknown on the step-5 identity;
